@@ -7,8 +7,10 @@ import (
 	"sort"
 	"testing"
 
-	"verifharness/vlog"
+	"pgregory.net/rapid"
 	"time"
+	"verifharness/pbt"
+	"verifharness/vlog"
 )
 
 // TestSurvey (development aid, VERIF_SURVEY=1): runs the sweep without failing and prints every
@@ -20,15 +22,36 @@ func TestSurvey(t *testing.T) {
 	cs := sweepCases()
 	start := time.Now()
 	excl := map[string]int{}
-	for _, c := range cs {
-		c.Strict = true
-		out := prop(c)
-		if out.Excluded != "" {
-			excl[out.Excluded]++
+	if os.Getenv("VERIF_SURVEY") == "random" {
+		n, nt := 0, 0
+		rapid.Check(t, func(rt *rapid.T) {
+			c := genRandom(rt)
+			c.Strict = true
+			out := pbt.Guard(func() pbt.Outcome { return prop(c) })
+			n++
+			if out.NonTrivial {
+				nt++
+			}
+			if out.Excluded != "" {
+				excl[out.Excluded]++
+			}
+			if out.Fail != nil && out.Fail.Sig == "panic" {
+				excl["PANIC "+out.Fail.Msg[:200]]++
+			}
+		})
+		el := time.Since(start)
+		fmt.Printf("random: %d machines (%d non-trivial) in %v (%.1f/s)\n", n, nt, el, float64(n)/el.Seconds())
+	} else {
+		for _, c := range cs {
+			c.Strict = true
+			out := prop(c)
+			if out.Excluded != "" {
+				excl[out.Excluded]++
+			}
 		}
+		el := time.Since(start)
+		fmt.Printf("sweep: %d machines in %v (%.1f/s)\n", len(cs), el, float64(len(cs))/el.Seconds())
 	}
-	el := time.Since(start)
-	fmt.Printf("sweep: %d machines in %v (%.1f/s)\n", len(cs), el, float64(len(cs))/el.Seconds())
 	var ks []string
 	for k := range excl {
 		ks = append(ks, k)
@@ -36,6 +59,9 @@ func TestSurvey(t *testing.T) {
 	sort.Strings(ks)
 	for _, k := range ks {
 		fmt.Printf("EXCLUDED %4d %s\n", excl[k], k)
+	}
+	for k, n := range unsupportedSeen {
+		fmt.Printf("UNSUPPORTED %5d %s\n", n, k)
 	}
 	var sigs []string
 	for s := range reaches {
@@ -111,4 +137,148 @@ func TestLintFile(t *testing.T) {
 	for _, x := range vlog.Lint(d, vlog.LintOpts{}) {
 		fmt.Println("LINT", x)
 	}
+}
+
+// knownCases: one minimal machine per recorded mechanism (see the table in the check's report).
+// VERIF_WRITE_KNOWN=<dir> re-creates the replay files after checking that each case fails with
+// exactly its signature on the tree under test.
+type knownCase struct {
+	file string
+	sig  string
+	c    Case
+}
+
+func one(rsize int, mode string, L int, ops []string, sos []string) Case {
+	pr := procFor(ops, mode, 1, sos)
+	if L > 0 {
+		pr.L = L
+	}
+	return single(rsize, pr, sos)
+}
+
+func knownCases() []knownCase {
+	two := func(so string, a, b []string) Case {
+		c := Case{Rsize: 8, SOs: []string{so}}
+		for _, ops := range [][]string{a, b} {
+			pr := procFor(ops, "ha", 1, c.SOs)
+			pr.SOs = []int{0}
+			c.Procs = append(c.Procs, pr)
+		}
+		return withProg(c)
+	}
+	three := two("channel:", []string{"wrd", "wwr", "chc", "nop"}, []string{"wrd", "wwr", "chc", "nop"})
+	{
+		pr := procFor([]string{"wrd", "wwr", "chc", "nop"}, "ha", 1, three.SOs)
+		pr.SOs = []int{0}
+		pr.Prog = []string{"nop"}
+		three.Procs = append(three.Procs, pr)
+	}
+	unusedOut := single(8, Proc{Mode: "ha", R: 1, O: 2, M: 1, Ops: []string{"nop"}}, nil)
+	unusedIn := single(8, Proc{Mode: "ha", R: 1, O: 2, N: 1, Ops: []string{"nop"}}, nil)
+	unbonded := Case{Rsize: 8, Procs: []Proc{{Mode: "ha", R: 1, O: 2, N: 1, Ops: []string{"i2r", "nop"}, Prog: []string{"i2r r0 i0"}}}}
+	shOff := Case{Rsize: 8, SOs: []string{"sharedmem:4"}, Procs: []Proc{
+		{Mode: "ha", R: 1, O: 2, Ops: []string{"nop"}, Prog: []string{"nop"}},
+		{Mode: "ha", R: 1, O: 2, Ops: []string{"nop", "r2s", "s2r"}, Prog: []string{"nop"}, SOs: []int{0}}}}
+	return []knownCase{
+		{"kbd-cp-params-named-u", "undeclared:processor:kNreceiverData", one(8, "ha", 0, []string{"k2r"}, []string{"kbd:4"})},
+		{"kbd-module-not-written", "undefined-module:top:kN", one(8, "ha", 0, []string{"k2r"}, []string{"kbd:4"})},
+		{"d10-barrier-clock", "undeclared:so:barrier:clock", one(8, "ha", 0, []string{"hit"}, []string{"barrier:0"})},
+		{"d10-barrier-done-two-processes", "multi-driver:so:barrier:done", one(8, "ha", 0, []string{"hit"}, []string{"barrier:0"})},
+		{"d10-barrier-counter-two-processes", "multi-driver:so:barrier:counter", one(8, "ha", 0, []string{"hit"}, []string{"barrier:4"})},
+		{"hit-nested-case-items", "syntax:processor:expected-'='-or-'<='-after-assignment-target,-found-\":\"@RN_:_begin", one(8, "ha", 0, []string{"hit"}, []string{"barrier:0"})},
+		{"testbench-omits-so-ports", "port-count:testbench:bondmachine_inst", one(8, "ha", 0, []string{"r2u", "u2r"}, []string{"uart:115200:4"})},
+		{"lfsr8-two-processors", "port-count:top:lfsr8N_inst", two("lfsr8:7", []string{"lfsr82r"}, []string{"lfsr82r"})},
+		{"fifo-without-sender", "syntax:so:queue:bad-literal-size-in-N'dN@sendSM_<=_N'dN;", one(8, "ha", 0, []string{"q2r"}, []string{"queue:4"})},
+		{"fifo-without-receiver", "syntax:so:queue:bad-literal-size-in-N'dN@recvSM_<=_N'dN;", one(8, "ha", 0, []string{"r2q"}, []string{"queue:4"})},
+		{"lifo-without-sender", "syntax:so:stack:bad-literal-size-in-N'dN@sendSM_<=_N'dN;", one(8, "ha", 0, []string{"t2r"}, []string{"stack:4"})},
+		{"lifo-without-receiver", "syntax:so:stack:bad-literal-size-in-N'dN@recvSM_<=_N'dN;", one(8, "ha", 0, []string{"r2t"}, []string{"stack:4"})},
+		{"channel-third-processor-tag", "syntax:so:channel:digit-out-of-range-for-base-in-'bN@localparam_TAG_CH_N_=_'bN;", three},
+		{"channel-consumer-only", "undeclared:processor:wwr_ch", one(8, "ha", 0, []string{"wrd", "chw"}, []string{"channel:"})},
+		{"channel-producer-only", "undeclared:processor:wrd_ch", one(8, "ha", 0, []string{"wwr", "chw"}, []string{"channel:"})},
+		{"channel-without-check", "undeclared:processor:reset_flag_ch", one(8, "ha", 0, []string{"wrd", "wwr"}, []string{"channel:"})},
+		{"channel-check-only", "undeclared:processor:ch_num", one(8, "ha", 0, []string{"chw"}, []string{"channel:"})},
+		{"m2r-without-writer", "syntax:processor:unexpected-\";\"-in-expression@assign_ram_addr_=_(current_instruction[N", one(8, "ha", 0, []string{"m2r"}, nil)},
+		{"m2r-without-writer-vn", "syntax:processor:unexpected-\";\"-in-expression@assign_ram_addr_=_(exec_mode_==_N'bN_&&_", one(8, "vn", 0, []string{"m2r"}, nil)},
+		{"ram-opcode-in-vn-exec-mode", "undeclared:processor:exec_mode", one(8, "vn", 0, []string{"r2m"}, nil)},
+		{"jgt0f-if-without-begin", "syntax:processor:unexpected-keyword-\"else\"-in-statement@else", one(8, "vn", 0, []string{"jgt0f"}, nil)},
+		{"vtextmem-two-instances-module", "syntax:so:vtextmem:duplicate-definition-of-module-cptextvideoram@module_cptextvideoram_#(parameter_ADDR_W", one(8, "ha", 0, []string{"r2v"}, []string{"vtextmem:0:0:0:8:4", "vtextmem:0:0:0:8:4"})},
+		{"vtextmem-second-instance-registers", "undeclared:processor:vtmN_din_i", one(8, "ha", 0, []string{"r2v"}, []string{"vtextmem:0:0:0:8:4", "vtextmem:0:0:0:8:4"})},
+		{"expf-calls-undefined-function", "undeclared:processor:exp", one(8, "ha", 0, []string{"expf"}, nil)},
+		{"cmpv-input-without-recv", "undeclared:processor:iN_recv", one(8, "ha", 0, []string{"cmpv"}, nil)},
+		{"addi-and-i2r-both-drive-recv", "multi-driver:processor:iN_recv", one(8, "ha", 0, []string{"addi", "i2r"}, nil)},
+		{"sharedmem-dout-by-processor-id", "undeclared:so:sharedmem:pNdout", shOff},
+		{"uart-reset-port-named-rst", "undeclared:so:uart:reset", one(8, "ha", 0, []string{"r2u", "u2r"}, []string{"uart:115200:4"})},
+		{"uart-read-fifo-missing", "undefined-module:so:uart:uNrfifo", one(8, "ha", 0, []string{"r2u"}, []string{"uart:115200:4"})},
+		{"uart-write-fifo-missing", "undefined-module:so:uart:uNwfifo", one(8, "ha", 0, []string{"u2r"}, []string{"uart:115200:4"})},
+		{"helper-module-key-addfps", "undefined-module:processor:addfpsNfN_N", one(16, "ha", 0, []string{"addf", "addfps16f8"}, nil)},
+		{"helper-module-key-multfps", "undefined-module:processor:multfpsNfN_N", one(16, "ha", 0, []string{"multf", "multfps16f8"}, nil)},
+		{"helper-module-key-divfps", "undefined-module:processor:divfpsNfN_N", one(16, "ha", 0, []string{"divf", "divfps16f8"}, nil)},
+		{"helper-module-key-addlqs", "undefined-module:processor:addlqsNtN_N", one(16, "ha", 0, []string{"addfps16f8", "addlqs8t1"}, nil)},
+		{"helper-module-key-multlqs", "undefined-module:processor:multlqsNtN_N", one(16, "ha", 0, []string{"multfps16f8", "multlqs8t1"}, nil)},
+		{"helper-module-key-divlqs", "undefined-module:processor:divlqsNtN_N", one(16, "ha", 0, []string{"divfps16f8", "divlqs8t2"}, nil)},
+		// configuration-dependent: machines no program-driven front end emits, accepted by the tool all the same
+		{"cfg-unused-output", "undeclared:processor:oN_val", unusedOut},
+		{"cfg-unused-input", "undeclared:processor:iN_recv", unusedIn},
+		{"cfg-unbonded-processor-input", "undeclared:top:pNiN_valid", unbonded},
+		{"cfg-so-opcode-without-so-localparam", "syntax:processor:expected-identifier,-found-keyword@localparam", one(8, "ha", 0, []string{"k2r"}, nil)},
+		{"cfg-ram-jump-in-ha", "undeclared:processor:vn_state", one(8, "ha", 0, []string{"ja"}, nil)},
+		{"cfg-tsp-without-threads", "undeclared:processor:threadStackNSM", single(8, Proc{Mode: "ha", R: 1, O: 2, Ops: []string{"tsp"}}, nil)},
+		{"cfg-ram-opcode-without-ram", "undeclared:processor:ram_din", single(8, Proc{Mode: "ha", R: 1, O: 2, Ops: []string{"r2m"}}, nil)},
+		{"cfg-vn-without-ram", "syntax:processor:bad-literal-size-in-N'hN@_pc_<=_#N_N'hN;", single(8, Proc{Mode: "vn", R: 1, O: 2, Ops: []string{"nop"}}, nil)},
+		{"cfg-channel-opcode-without-channel", "undeclared:processor:ack_wrd_i", one(8, "ha", 0, []string{"wrd"}, nil)},
+		{"cfg-sharedmem-opcode-without-sharedmem", "undeclared:processor:sh_dout_i", one(8, "ha", 0, []string{"s2r"}, nil)},
+		{"cfg-r2v-without-vtextmem", "undeclared:processor:vtmN_din_i", one(8, "ha", 0, []string{"r2v"}, nil)},
+		{"cfg-kbd-without-k2r", "syntax:so:kbd:bad-literal-size-in-N'dN@recvSM_<=_N'dN;", single(8, Proc{Mode: "ha", R: 1, O: 2, Ops: []string{"nop"}}, []string{"kbd:4"})},
+	}
+}
+
+func TestWriteKnown(t *testing.T) {
+	dir := os.Getenv("VERIF_WRITE_KNOWN")
+	if dir == "" {
+		t.Skip("VERIF_WRITE_KNOWN not set")
+	}
+	os.MkdirAll(dir, 0o755)
+	for _, k := range knownCases() {
+		c := k.c
+		c.Strict = true
+		all := prop(c)
+		c.Focus = k.sig
+		out := prop(c)
+		if out.Fail == nil || out.Fail.Sig != k.sig {
+			got := "<no failure>"
+			if all.Fail != nil {
+				got = all.Fail.Msg
+			}
+			t.Errorf("%s: expected failure %q, machine gives: %s (excluded=%q) shape=%v", k.file, k.sig, got, all.Excluded, shape(c))
+			continue
+		}
+		raw, _ := json.Marshal(c)
+		rf := pbt.ReplayFile{Property: "C18", Entry: "sweep", Failure: out.Fail, Case: raw}
+		b, _ := json.MarshalIndent(rf, "", " ")
+		if err := os.WriteFile(dir+"/"+k.file+".json", b, 0o644); err != nil {
+			t.Fatal(err)
+		}
+		fmt.Printf("KNOWN %-45s shape=%v %s\n", k.file, shape(c), k.sig)
+	}
+}
+
+// TestTableComplete: every statically registered opcode has a row in opTable (the sweep would skip it silently).
+func TestTableComplete(t *testing.T) {
+	for _, n := range StaticNames() {
+		if _, ok := opTable[n]; !ok {
+			t.Errorf("static opcode %q has no row in opTable", n)
+		}
+	}
+	for n := range opTable {
+		found := false
+		for _, s := range StaticNames() {
+			if s == n {
+				found = true
+			}
+		}
+		if !found {
+			t.Errorf("opTable row %q is not a registered opcode", n)
+		}
+	}
+	t.Logf("%d static opcodes", len(StaticNames()))
 }
